@@ -224,19 +224,20 @@ impl<'a> WorldSat<'a> {
     pub fn from_psbt(uni: &'a KeyUniverse, by_expr: &'a BTreeMap<String, usize>, psbt: &Psbt, idx: usize) -> Self {
         let mut s = Self::empty(uni, by_expr, &psbt.unsigned_tx, idx);
         let inp = &psbt.inputs[idx];
-        let by_pk = uni.key_by_pubkey();
+        let by_pk = uni.keys_by_pubkey();
+        let none = vec![];
         for (pk, sig) in &inp.partial_sigs {
-            if let Some(id) = by_pk.get(&pk.to_bytes()) {
+            for id in by_pk.get(&pk.to_bytes()).unwrap_or(&none) {
                 s.ecdsa.insert(*id, *sig);
             }
         }
         if let (Some(ik), Some(sig)) = (inp.tap_internal_key, inp.tap_key_sig) {
-            if let Some(id) = by_pk.get(&ik.serialize().to_vec()) {
+            for id in by_pk.get(&ik.serialize().to_vec()).unwrap_or(&none) {
                 s.tap_key.insert(*id, sig);
             }
         }
         for ((xpk, lh), sig) in &inp.tap_script_sigs {
-            if let Some(id) = by_pk.get(&xpk.serialize().to_vec()) {
+            for id in by_pk.get(&xpk.serialize().to_vec()).unwrap_or(&none) {
                 s.tap_script.insert((*id, *lh), *sig);
             }
         }
